@@ -258,6 +258,9 @@ def _opt_lens(p, tier):
 
 # content letters of the option shard: what the probing branches of the strategies look at (NlaIII site / ligated T /
 # CA overhang after the barcode, scar primer at the start of R1 or behind its 4 nt random sequence)
+# header written by an earlier demultiplexing round (another strategy, another cell): only tags every barcode strategy sets itself
+TAGGED_HEADER = ('@Is:NS500414;RN:628;Fc:H7YVNBGXC;La:1;Ti:11101;CX:15963;CY:1046;Fi:N;CN:0;aa:ATCACG;aA:ATCACG;aI:1;LY:oldlib;'
+                 'bi:383;bc:TTTTTTTTTT;MX:OLDSTRATEGY;BC:TTTTTTTTTT')
 _CONTENTS = [('plain', []), ('CATG@11', [[0, 11, 'CATG']]), ('T@11', [[0, 11, 'T']]), ('CA@11', [[0, 11, 'CA']]),
              ('scar@0', [[0, 0, SCAR]]), ('scar@4', [[0, 4, SCAR]])]
 
@@ -396,6 +399,12 @@ def _cases(shard, tier, cfg='std'):
                             yield {'s': short, 'hd': 0, 'plant': plant, 'l1': l1, 'l2': None if se_only else l2,
                                    'probe': probe, 'cls': f'{label}/opt:probe={probe}:{cname}'}, \
                                 bc is not None and probe is None and l1 == L.READLEN
+                            if cname == 'plain' and probe is None:
+                                # a second demultiplexing round: the input header is the k:v header of an earlier round and
+                                # carries that round's barcode / cell / strategy tags, which are NOT what these reads hold
+                                yield {'s': short, 'hd': 0, 'plant': plant, 'l1': l1, 'l2': None if se_only else l2,
+                                       'probe': probe, 'hdr': 'tagged', 'cls': f'{label}/opt:already-demultiplexed-header'}, \
+                                    bc is not None and l1 == L.READLEN
     elif kind == 'three':
         p = _prefix(short)
         for label, alias, sg, picks in srcs or [('none', None, [], [None])]:
@@ -507,6 +516,8 @@ def _records(case):
     raw = L.build_reads(case['plant'], case['l1'], l2 if l2 is not None else 0, case.get('v', 0), case.get('l3'), case.get('q'))
     if l2 is None:
         raw = raw[:1]
+    if case.get('hdr') == 'tagged':
+        raw = [(TAGGED_HEADER,) + tuple(r[1:]) for r in raw]
     return raw, tuple(FastqRecord(*r) for r in raw)      # FastqIterator hands out a tuple of named tuples
 
 
